@@ -140,7 +140,7 @@ def execute(sc):
                 sym.save(out, kind=sc['kind_case'], **skw)
                 return Outcome(r, _b(out.getvalue()), files=stamp_files(before))
             if r == 'path':
-                p = 'dir/path-%s.%s' % (tag, ext)
+                p = '%s/path-%s.%s' % (('dir', 'out.d', 'a.b.c')[n % 3], tag, ext)
                 sym.save(p, **skw)
                 return Outcome(r, fs.files.get(p), files=stamp_files(before), extra=p)
             if r == 'path_twice':
